@@ -66,7 +66,7 @@ func runC09(r *Run) {
 				}
 				a, b := br.Info.Root, br.Info.Other
 				if (loadOfField(a, "ResFmt.MediaType") && b == acc[0].Value()) || (loadOfField(b, "ResFmt.MediaType") && a == acc[0].Value()) {
-					if br.If.Block().Succs[br.slotWhenRel(true)].Dominates(c.Block()) {
+					if dom(br.If.Block().Succs[br.slotWhenRel(true)], c.Block()) {
 						okEq = true
 					}
 				}
@@ -74,12 +74,12 @@ func runC09(r *Run) {
 			okDefault := false
 			for _, br := range ifsOnValue(ff, acc[0].Value()) {
 				if s, ok := constString(br.Info.Const); ok && s == "" {
-					if sl, ok := br.slotFor(token.EQL); ok && br.If.Block().Succs[sl].Dominates(c.Block()) {
+					if sl, ok := br.slotFor(token.EQL); ok && dom(br.If.Block().Succs[sl], c.Block()) {
 						okDefault = true
 					}
 				}
 			}
-			okFirst := !acc[0].Block().Dominates(c.Block()) // before negotiation: the empty-Accept shortcut
+			okFirst := !dom(acc[0].Block(), c.Block()) // before negotiation: the empty-Accept shortcut
 			r.check(okEq || okDefault || okFirst, fmt.Sprintf("Format:handler-call#%d", nh), r.pos(c.Instr), "handler is the one whose MediaType == accepted value, the default handler, or the first one for an empty Accept", "Format can call a handler whose MediaType was not the negotiated one")
 		}
 		r.atLeast("handler calls in Format", nh, 3)
@@ -319,7 +319,7 @@ func runC09(r *Run) {
 					}
 				}
 			}
-			r.check(hit == nil && okRet && br.If.Block().Dominates(parse[0].Block()), "getOffer:empty-"+spec.param, r.pos(br.If), "len("+spec.param+") == 0 returns "+spec.want+" before any parsing", "the empty-"+spec.param+" shortcut is wrong or happens after parsing")
+			r.check(hit == nil && okRet && dom(br.If.Block(), parse[0].Block()), "getOffer:empty-"+spec.param, r.pos(br.If), "len("+spec.param+") == 0 returns "+spec.want+" before any parsing", "the empty-"+spec.param+" shortcut is wrong or happens after parsing")
 		}
 	})
 
@@ -468,7 +468,7 @@ func pooledParamMapRule(r *Run) {
 		// after Put: return, or the next candidate — never the acceptance predicate with the same candidate
 		var outer *ssa.BasicBlock
 		for _, b := range f.Blocks {
-			if b.Comment == "rangeindex.loop" && b.Dominates(p.Block()) && (outer == nil || outer.Dominates(b)) {
+			if b.Comment == "rangeindex.loop" && dom(b, p.Block()) && (outer == nil || dom(outer, b)) {
 				if outer == nil {
 					outer = b
 				}
